@@ -22,21 +22,57 @@ def main():
     os.makedirs(tmp, exist_ok=True)
     top = tempfile.mkdtemp(prefix='c18_', dir=tmp)
     results = []
+    cwd0 = os.getcwd()
     try:
+        # an empty working directory: os.path.exists(<dotted name>) in the extractor is relative to it
+        os.makedirs(os.path.join(top, 'cwd'))
+        os.chdir(os.path.join(top, 'cwd'))
+        base = None
         for k, sc in enumerate(payload['scenarios']):
-            base = os.path.join(top, 's%d' % k)
-            os.makedirs(base)
-            for d in sc['dirs']:
-                os.makedirs(os.path.join(base, *d), exist_ok=True)
-            for f in sc['files']:
-                p = os.path.join(base, *f)
-                os.makedirs(os.path.dirname(p), exist_ok=True)
-                open(p, 'a').close()
+            if sc.get('continues') and base is not None:
+                # a later moment of the same history: the SAME directory, changed in place
+                sync_tree(base, sc, wipe=bool(sc.get('wipe')))
+            else:
+                base = os.path.join(top, 's%d' % k)
+                os.makedirs(base)
+                sync_tree(base, sc, wipe=False)
             importlib.invalidate_caches()
             results.append(run_scenario(U, kernprof, base, sc))
     finally:
+        os.chdir(cwd0)
         shutil.rmtree(top, ignore_errors=True)
-    emit(dict(results=results, U_file=U.__file__, kernprof_file=kernprof.__file__))
+    emit(dict(results=results, U_file=U.__file__, kernprof_file=kernprof.__file__, base_has_dot='.' in top))
+
+
+def sync_tree(base, sc, wipe):
+    """make the directory tree below base equal to the scenario's (files are empty)"""
+    if wipe:
+        shutil.rmtree(base)
+        os.makedirs(base)
+    want_dirs = {tuple(d) for d in sc['dirs']}
+    want_files = {tuple(f) for f in sc['files']}
+    for f in want_files:
+        for i in range(1, len(f)):
+            want_dirs.add(f[:i])
+    # remove what is no longer there (deepest first)
+    have = []
+    for dpath, dnames, fnames in os.walk(base):
+        r = tuple(os.path.relpath(dpath, base).split(os.sep)) if dpath != base else ()
+        have += [(r + (d,), True) for d in dnames] + [(r + (f,), False) for f in fnames]
+    for p, isdir in sorted(have, key=lambda x: -len(x[0])):
+        full = os.path.join(base, *p)
+        if isdir and p not in want_dirs:
+            if os.path.isdir(full):
+                shutil.rmtree(full)
+        elif not isdir and p not in want_files:
+            if os.path.exists(full):
+                os.remove(full)
+    for d in sorted(want_dirs, key=len):
+        os.makedirs(os.path.join(base, *d), exist_ok=True)
+    for f in want_files:
+        full = os.path.join(base, *f)
+        if not os.path.exists(full):
+            open(full, 'a').close()
 
 
 def rel(base, p):
@@ -173,6 +209,15 @@ def run_scenario(U, kernprof, base, sc):
                 out.append(dict(out=got, err=None))
             except Exception as e:  # noqa
                 out.append(dict(out=None, err=type(e).__name__))
+        elif kind == 'listpkg':
+            p = os.path.join(base, *q['path'])
+            try:
+                got = [rel(base, x) for x in U.package_modpaths(p, with_pkg=True)]
+                out.append(dict(out=got, err=None))
+            except Exception as e:  # noqa
+                out.append(dict(out=None, err=type(e).__name__))
+        elif kind == 'select':
+            out.append(run_select(base, sc, q))
         elif kind == 'm2n':
             p = os.path.join(base, *q['path'])
             hi, hm = q['hi'], q['hm']
@@ -185,6 +230,47 @@ def run_scenario(U, kernprof, base, sc):
         else:
             raise ValueError(kind)
     return out
+
+
+def import_listing(pkgdir, name):
+    """the names under which the import system knows what is inside a regular package"""
+    import pkgutil
+    out = []
+    for info in pkgutil.iter_modules([pkgdir], name + '.'):
+        out.append(info.name)
+        if info.ispkg:
+            out += import_listing(os.path.join(pkgdir, info.name.rsplit('.', 1)[1]), info.name)
+    return out
+
+
+def run_select(base, sc, q):
+    """ProfmodExtractor._get_modnames_to_profile_from_prof_mod with sys.path = the scenario's roots"""
+    from line_profiler.autoprofile.profmod_extractor import ProfmodExtractor
+    from line_profiler.autoprofile import util_static as U
+    script = os.path.join(base, *q['script'])
+    sys_path = [os.path.join(base, *r) for r in q['sys_path']]
+    entries = [e['name'] if 'name' in e else os.path.join(base, *e['path']) for e in q['entries']]
+    old_path = list(sys.path)
+    sys.path[:] = list(sys_path)
+    try:
+        try:
+            got = list(ProfmodExtractor._get_modnames_to_profile_from_prof_mod(script, entries))
+            r = dict(out=got, err=None)
+        except Exception as e:  # noqa
+            r = dict(out=None, err=type(e).__name__)
+    finally:
+        sys.path[:] = old_path
+    if q.get('judge'):
+        name = q['entries'][0]['name']
+        roots = [os.path.dirname(script)] + sys_path
+        importlib.invalidate_caches()
+        pf = pf_chain(base, name, roots)
+        r['pf'] = pf
+        raw, _ = call(U._syspath_modname_to_modpath, name, sys_path=list(roots))
+        r['raw'] = rel(base, raw)
+        if pf[0] == 'found':
+            r['oracle'] = [name] + (import_listing(os.path.join(base, *pf[1]), name) if pf[2] else [])
+    return r
 
 
 if __name__ == '__main__':
